@@ -41,3 +41,32 @@ fn("orm/evaluator.py::_EvaluatorCompiler.visit_unary.evaluate",
             "implies(call(eval_inner, obj) is None, result is None)",
             "implies(call(eval_inner, obj) is _EXPIRED_OBJECT, result is _EXPIRED_OBJECT)"],
    modifies=[], harness="evaluator.not_")
+
+# ---- binary closures: NULL / expired propagation (DESIGN App. B.4)
+BT = {"eval_left": "fn", "eval_right": "fn", "obj": "v", "operator": "fn"}
+LV, RV = "call(eval_left, obj)", "call(eval_right, obj)"
+EXP = f"({LV} is _EXPIRED_OBJECT or {RV} is _EXPIRED_OBJECT)"
+fn("orm/evaluator.py::_EvaluatorCompiler._straight_evaluate.evaluate", props=["C43"], types=BT, consts=CONSTS,
+   ensures=[f"implies({EXP}, result is _EXPIRED_OBJECT)",
+            # SQL: any comparison / arithmetic with a NULL operand is NULL
+            f"implies(not {EXP} and ({LV} is None or {RV} is None), result is None)",
+            f"implies(not {EXP} and {LV} is not None and {RV} is not None, result is call(operator, {LV}, {RV}))"],
+   modifies=[])
+fn("orm/evaluator.py::_EvaluatorCompiler.visit_is_binary_op.evaluate", props=["C43"], types=BT, consts=CONSTS, returns="v",
+   ensures=[f"implies({EXP}, result is _EXPIRED_OBJECT)",
+            # IS is NULL-safe equality: never NULL
+            f"implies(not {EXP}, result is ({LV} == {RV}))"],
+   modifies=[])
+fn("orm/evaluator.py::_EvaluatorCompiler.visit_is_not_binary_op.evaluate", props=["C43"], types=BT, consts=CONSTS, returns="v",
+   ensures=[f"implies({EXP}, result is _EXPIRED_OBJECT)", f"implies(not {EXP}, result is ({LV} != {RV}))"],
+   modifies=[])
+fn("orm/evaluator.py::_EvaluatorCompiler.visit_comma_op_clauselist_op.evaluate", props=["C43"],
+   types={"evaluators": "seq", "elems:evaluators": "fn", "obj": "v", "sub_evaluate": "fn", "values": "list"}, consts=CONSTS, returns="v",
+   requires=["all(call(e, obj) is not _NO_OBJECT for e in evaluators)"],
+   invariant={0: ["all(call(evaluators[j], obj) is not None and call(evaluators[j], obj) is not _EXPIRED_OBJECT for j in range(_i))",
+                  "len(values) == _i and all(contents(values)[j] is call(evaluators[j], obj) for j in range(_i))"]},
+   ensures=["implies(result is _EXPIRED_OBJECT, any(call(e, obj) is _EXPIRED_OBJECT for e in evaluators))",
+            "implies(not any(call(e, obj) is _EXPIRED_OBJECT for e in evaluators) and any(call(e, obj) is None for e in evaluators), result is None)",
+            "implies(not any(call(e, obj) is _EXPIRED_OBJECT or call(e, obj) is None for e in evaluators), "
+            "len(seq(result)) == len(evaluators) and all(seq(result)[j] is call(evaluators[j], obj) for j in range(len(evaluators))))"],
+   modifies=[])
